@@ -202,6 +202,18 @@ def g2(self):
     return self.vals["g2"]
 '''
 RENDERINGS["states-enum-instance"] = RENDERINGS["states-enum"].replace("final=Letters.d)", "final=Letters.d, use_enum_instance=True)")
+# an any() event declared above a States collection that holds some of the states it must cover
+RENDERINGS["any-before-states-collection"] = '''
+d = State(final=True)
+quit = d.from_.any(unless="g2")
+sts = States({"a": State(initial=True), "b": State(), "c": State()})
+go = sts.a.to(sts.b, cond="g1") | sts.a.to(sts.c) | sts.b.to(sts.c)
+back = sts.b.to(sts.a) | sts.c.to(sts.a, unless="g2")
+loop = sts.b.to.itself()
+hop = sts.c.to(sts.b, unless="g2")
+skip = hop
+halt = sts.b.to(d, cond="g1") | sts.a.to(d) | sts.b.to(d) | sts.c.to(d)
+'''
 # an any() event declared before one of the states it must cover
 RENDERINGS["any-before-later-state"] = '''
 a = State(initial=True); b = State(); d = State(final=True)
@@ -245,12 +257,12 @@ skip = hop
 '''
 
 
-class Letters(enum.Enum):
+class Letters(enum.IntEnum):
     a = 1
     b = 2
     c = 3
-    d = 4
-    done = 4  # an alias of d: not a state of its own
+    d = 0  # the final member is falsy
+    done = 0  # an alias of d: not a state of its own
 
 
 _BUILT = {}
@@ -299,7 +311,7 @@ BUDGET = {
 }
 BOUNDS = {
     "quick": "one abstract machine (4 states incl. a final one; 6 events; two candidates for (a,go) and (b,halt), cond and unless guards, a self transition, one "
-    "transition bound to two events, `halt` from every non-final state next to an explicit guarded transition to the same target) rendered in 17 styles (States.from_enum with and without use_enum_instance; an any() event declared above a state it must cover; one event id attached in two styles inside one class body; on_transition / on_exit_state traces compared as well; (guards also attached with @transition.cond / @event.unless decorators; the enum has an alias; a from_.any(unless=...) event): a.to(b), "
+    "transition bound to two events, `halt` from every non-final state next to an explicit guarded transition to the same target) rendered in 18 styles (an any() event above a States({...}) collection; the enum's final member has value 0; States.from_enum with and without use_enum_instance; an any() event declared above a state it must cover; one event id attached in two styles inside one class body; on_transition / on_exit_state traces compared as well; (guards also attached with @transition.cond / @event.unless decorators; the enum has an alias; a from_.any(unless=...) event): a.to(b), "
     "b.from_(a), multi-source from_(a,b,c) + to.itself(), from_.any(), event='id' / 'id id' / [ids] on the transition, id-less Event() objects passed by reference "
     "(single and in a list), Event(transitions, name=/id=), decorator-declared events, both associations of | and |=, States({...}), States.from_enum, base class + "
     "subclass; each compared with the reference rendering on states, events, allowed_events in every state, and one step from every state on every event and an "
@@ -333,7 +345,7 @@ def run(ctx, params):
             views = {s: static_view(build(s)) for s in STYLES}
             base = static_view(ref)
         for s, v in views.items():
-            if s == "any-before-later-state":
+            if s in ("any-before-later-state", "any-before-states-collection"):
                 v = dict(v, states=sorted(v["states"]))
                 if v != dict(base, states=sorted(base["states"])):
                     raise Mismatch(f"static-structure-differs:{s}", f"reference {base} vs {s} {v}")
